@@ -62,6 +62,9 @@ func c06World() (*vfWorld, *vfFakes) {
 	return w, f
 }
 
+// routes on which a second factor can be proven or a transaction started
+var c06SecondFactorRoute = regexp.MustCompile(`(?i)auth|totp|sign|finish|vip|okta|push|poll|bootstrap`)
+
 var c06JWSRe = regexp.MustCompile(`eyJ[A-Za-z0-9_-]{8,}\.[A-Za-z0-9_-]{8,}\.[A-Za-z0-9_-]{8,}`)
 
 // c06Signed finds material in the response that is signed by this server.
@@ -268,9 +271,24 @@ func c06Run(w *vfWorld, f *vfFakes, shapes map[string]vfCredShape, p c06Point) (
 	var creds []vfTruth
 	t := shapes[p.Shape].Apply(w, &q)
 	creds = append(creds, t)
-	if p.With == "bob-cookie" {
+	switch p.With {
+	case "bob-cookie":
 		q.Cookies = append(q.Cookies, w.vfCookie("bob", AuthTypePassword|AuthTypeTOTP))
 		creds = append(creds, vfTruth{Kind: "cookie", Valid: true, User: "bob", Level: AuthTypePassword | AuthTypeTOTP})
+	// a second user half-way through login rides along: his password-only cookie,
+	// after or before the shape's own, and HIS valid second-factor code in the form;
+	// whatever is admitted and upgraded must be one and the same identity (rule 5)
+	case "bob-pw-cookie-last", "bob-pw-cookie-first":
+		ck := w.vfCookie("bob", AuthTypePassword)
+		if p.With == "bob-pw-cookie-last" {
+			q.Cookies = append(q.Cookies, ck)
+		} else {
+			q.Cookies = append([]*http.Cookie{ck}, q.Cookies...)
+		}
+		if q.Form != nil {
+			q.Form.Set("OTP", vfTOTPCode("bob", vclock.Now()))
+		}
+		creds = append(creds, vfTruth{Kind: "cookie", Valid: true, User: "bob", Level: AuthTypePassword})
 	}
 	before := c06Take(w, f)
 	resp := w.Do(q.Build())
@@ -396,7 +414,10 @@ func init() {
 					c.SetAdd("unclassified_routes", rt.Name+" "+rt.Pattern)
 				}
 				for _, s := range shapeList {
-					for _, with := range []string{"", "bob-cookie"} {
+					for _, with := range []string{"", "bob-cookie", "bob-pw-cookie-last", "bob-pw-cookie-first"} {
+						if strings.HasPrefix(with, "bob-pw-") && !c06SecondFactorRoute.MatchString(rt.Pattern) {
+							continue
+						}
 						i++
 						if !c.Mine(i) {
 							continue
